@@ -554,8 +554,14 @@ func (n *Node) ParamsAt(h uint32) ParamSet {
 // Build concretises an abstract candidate on top of the current tip.
 func (n *Node) Build(c *Cand) *blockchain.Block {
 	tip := n.Tip()
+	if c.Prev == "parent" && tip.Header.Height > 0 {
+		// a competitor of the tip: built on the tip's parent
+		if pb, err := n.Chain.DataAccess().GetBlockByHeight(tip.Header.Height - 1); err == nil {
+			tip = pb
+		}
+	}
 	prev := tip.Header.ID
-	if c.Prev != "tip" {
+	if c.Prev != "tip" && c.Prev != "parent" {
 		prev = crypto.Hash([]byte("some other block"))
 	}
 	txs := []*blockchain.Transaction{}
@@ -581,7 +587,7 @@ func (n *Node) Build(c *Cand) *blockchain.Block {
 	for _, tx := range txs {
 		txIDs = append(txIDs, tx.ID)
 	}
-	next := n.CurrentParams()
+	next := n.ParamsAt(tip.Header.Height + 1)
 	if c.Chg > 0 {
 		next = n.Cfg.Choices[c.Chg-1]
 	}
@@ -684,4 +690,72 @@ func (n *Node) Dump() []string {
 		res = append(res, fmt.Sprintf("%x=%x", kv.Key(), kv.Value()))
 	}
 	return res
+}
+
+// ---------------------------------------------------------------------------------------------- helpers for multi-node scenarios
+
+// AutoCand returns the abstract description of a valid successor of the current tip in the given slot,
+// computed from the real node state (generator by slot, current prevoted height, honest maxHeightGenerated).
+func (n *Node) AutoCand(slot int, ntx int) (*Cand, error) {
+	tip := n.Tip()
+	h := tip.Header.Height + 1
+	store := n.Ex.VerifConsensusStore()
+	gens, err := n.Ex.GetGeneratorKeys(store, h)
+	if err != nil {
+		return nil, err
+	}
+	g := gens[slot%len(gens)]
+	gen := 0
+	for id := 1; id <= n.Cfg.NVal; id++ {
+		if bytes.Equal(Validator(id).Address, g.Address()) {
+			gen = id
+		}
+	}
+	if gen == 0 {
+		return nil, fmt.Errorf("generator of slot %d unknown", slot)
+	}
+	mhpv, _, cert, err := n.Ex.GetBFTHeights(store)
+	if err != nil {
+		return nil, err
+	}
+	mhg := uint32(0)
+	for x := tip.Header.Height; x >= 1; x-- {
+		hd, err := n.Chain.DataAccess().GetBlockHeaderByHeight(x)
+		if err != nil {
+			break
+		}
+		if bytes.Equal(hd.GeneratorAddress, g.Address()) {
+			mhg = x
+			break
+		}
+	}
+	c := &Cand{Version: 2, H: h, Prev: "tip", Slot: slot, Gen: gen, Signer: gen, Sig: "ok", Mhp: mhpv, Mhg: mhg,
+		TxRoot: "ok", AssetRoot: "ok", EventRoot: "ok", StateRoot: "ok", VHash: "ok", TxStatic: "ok", Payload: "ok", Ntx: ntx, Mut: "none"}
+	c.Ac.H, c.Ac.Kind, c.Ac.Signers = cert, "empty", []int{}
+	return c, nil
+}
+
+// Extend applies a valid block in the given slot and returns it.
+func (n *Node) Extend(slot int, ntx int) (*blockchain.Block, error) {
+	c, err := n.AutoCand(slot, ntx)
+	if err != nil {
+		return nil, err
+	}
+	b := n.Build(c)
+	if err := n.Ex.VerifProcess(b, "12D3KooWverifpeer"); err != nil {
+		return nil, err
+	}
+	if !bytes.Equal(n.Tip().Header.ID, b.Header.ID) {
+		return nil, fmt.Errorf("valid block at height %d slot %d not accepted", c.H, slot)
+	}
+	return b, nil
+}
+
+// AddrInfo of the node's started connection.
+func (n *Node) AddrInfo() (*p2p.AddrInfo, error) {
+	addrs, err := n.Conn.MultiAddress()
+	if err != nil || len(addrs) == 0 {
+		return nil, fmt.Errorf("no listen address: %v", err)
+	}
+	return p2p.AddrInfoFromMultiAddr(addrs[0])
 }
